@@ -42,6 +42,12 @@ def jobs(tier, seed):
     for lay in (1, -1, -2):
         out.append({'name': 'xtab3d-2x2-sum-none-layer%d' % lay, 'kind': '3d', 'shape': [2, 2], 'agg': 'sum', 'sel': 'none', 'layer': lay})
         out.append({'name': 'xtab3d-1x3-count-cat1-layer%d' % lay, 'kind': '3d', 'shape': [1, 3], 'agg': 'count', 'sel': 'cat1', 'layer': lay})
+    # dask backend for 3-D values (only count is supported there): zones chunked along x, values chunked along the layer axis as a band stack
+    out.append({'name': 'xtab3d-1x3-count-none-dask-layer-chunks', 'kind': '3d', 'shape': [1, 3], 'agg': 'count', 'sel': 'none', 'dask': {'z': [[1], [1, 2]], 'v': [[1, 1], [1], [1, 2]]}})
+    out.append({'name': 'xtab3d-1x3-count-cat1-dask-one-chunk', 'kind': '3d', 'shape': [1, 3], 'agg': 'count', 'sel': 'cat1', 'dask': {'z': [[1], [3]], 'v': [[2], [1], [2, 1]]}})
+    # layer labels that are not in ascending order: every column must keep its own layer's aggregate
+    out.append({'name': 'xtab3d-1x3-sum-none-descending-labels', 'kind': '3d', 'shape': [1, 3], 'agg': 'sum', 'sel': 'none', 'labels': [20, 10]})
+    out.append({'name': 'xtab3d-1x3-count-cat1-descending-labels', 'kind': '3d', 'shape': [1, 3], 'agg': 'count', 'sel': 'cat1', 'labels': [20, 10], 'layer': -1})
     # non-finite zone ids (NaN, +-inf) are no zones: their cells belong to no row and must not disturb the others
     out.append({'name': 'xtab2d-1x3-count-none-zinf', 'kind': '2d', 'shape': [1, 3], 'agg': 'count', 'sel': 'none', 'zinf': True})
     out.append({'name': 'xtab3d-1x3-sum-none-zinf', 'kind': '3d', 'shape': [1, 3], 'agg': 'sum', 'sel': 'none', 'zinf': True})
@@ -142,19 +148,27 @@ def body(ctx, job):
     else:
         L = 2
         vals_d = ctx.array('v', (L, h, w), 'float64', nan=True)
-        labels = symnp.asarray([10, 20])
+        lab = job.get('labels', [10, 20])
+        labels = symnp.asarray(lab)
         values = ctx_raster3(vals_d, labels, job.get('layer'))
         if sel == 'cat1':
             cat_ids = [20]
+        first, second = lab
         if agg in ('max', 'min'):
             # numpy raises on an empty selection: keep every (zone, layer) non-empty
             for li in range(L):
                 for k in range(n):
                     ctx.assume(And(Not(isnan(vals_d[li].flat_values()[k])), vals_d[li].flat_values()[k] != nodata))
+        if job.get('dask'):
+            from sx import symda
+            zones = raster(zones_d, name='zones', chunks=job['dask']['z'])
+            values.data = symda.Array(values.data, tuple(tuple(c) for c in job['dask']['v']))
         df = ctx.call('zonal:crosstab', zones, values, zone_ids, cat_ids, job.get('layer'), agg, nodata)
+        if hasattr(df, 'compute'):
+            df = df.compute()
         rows = df['zone'].vals
         cols = [c for c in df.columns if not isinstance(c, str)]
-        ctx.check('3d-columns', [sc.as_const(c) if sc.is_sym(c) else c for c in cols] == ([20] if sel == 'cat1' else [10, 20]))
+        ctx.check('3d-columns', [sc.as_const(c) if sc.is_sym(c) else c for c in cols] == ([20] if sel == 'cat1' else list(lab)))
         ctx.observe('zone_column', list(rows))
         for i, zi in enumerate(rows):
             ctx.check('row-label-is-a-zone', Or(*[And(f, zk == zi) for f, zk in zip(zfin, zl)]))
@@ -164,7 +178,7 @@ def body(ctx, job):
             ctx.check('every-zone-has-a-row', Implies(f, Or(*[r == q for r in rows]) if rows else False))
         for i, zi in enumerate(rows):
             for cj in cols:
-                li = 0 if (sc.as_const(cj) if sc.is_sym(cj) else cj) == 10 else 1
+                li = 0 if (sc.as_const(cj) if sc.is_sym(cj) else cj) == first else 1
                 lv = vals_d[li].flat_values()
                 inz = [And(zk == zi, Not(isnan(v)), v != nodata) for zk, v in zip(zl, lv)]
                 cnt = Sum([ite(c, 1, 0) for c in inz])
